@@ -440,17 +440,18 @@ class NodeWorld:
         self.sync_dialed()
         self._hooks("run")
 
-    def handshake_in(self, host="peer1.example", auth=(4,), acct=(), ip="10.1.1.1", hbh=0x100, **kw):
-        """accept + CER for a configured peer; returns the Conn."""
+    def handshake_in(self, host="peer1.example", auth=(4,), acct=(), ip="10.1.1.1", hbh=0x100, spelled=None, **kw):
+        """accept + CER for a configured peer; returns the Conn.  `spelled`: the peer's own spelling of its
+        identity (DiameterIdentity is case-insensitive); Conn.host keeps the configured name."""
         c = self.accept(ip)
         if c is None:
             return None
         c.host = host
-        self.feed_msg(c, dict({"k": "CER", "host": host, "auth": list(auth), "acct": list(acct),
+        self.feed_msg(c, dict({"k": "CER", "host": spelled or host, "auth": list(auth), "acct": list(acct),
                                "hbh": hbh, "e2e": hbh}, **kw))
         return c
 
-    def answer_cer(self, c: Conn, result=2001, auth=(4,), acct=(), host=None, **kw):
+    def answer_cer(self, c: Conn, result=2001, auth=(4,), acct=(), host=None, spelled=None, **kw):
         """answer the node's outstanding CER on an outbound connection."""
         c.refresh()
         cers = [f for f in c.out if f.code == CMD_CE and f.is_request]
@@ -458,7 +459,7 @@ class NodeWorld:
             return False
         f = cers[-1]
         c.host = host or c.host or "peer1.example"
-        return self.feed_msg(c, dict({"k": "CEA", "host": c.host, "result": result, "auth": list(auth),
+        return self.feed_msg(c, dict({"k": "CEA", "host": spelled or c.host, "result": result, "auth": list(auth),
                                       "acct": list(acct), "hbh": f.h["hbh"], "e2e": f.h["e2e"]}, **kw))
 
     def app_call(self, fn, *args, name="appcall"):
